@@ -956,21 +956,24 @@ impl TextPane for Buffer {
         let mut ch_opt = None;
         let mut attr_opt = None;
         let mut default_font_page = 0;
-        let mut transparent_char = None;
+        // the visible cells with a transparent colour found so far, topmost first, each with the character override found above it
+        let mut transparent_chars: Vec<(AttributedChar, Option<char>)> = Vec::new();
+        // a cell with a transparent colour shows what the layers beneath it show: filled from `res`, the lowest one first
+        let fill = |transparent_chars: &[(AttributedChar, Option<char>)], mut res: AttributedChar| {
+            for (transparent_char, ch_opt) in transparent_chars.iter().rev() {
+                res = merge(self.make_solid_color(*transparent_char, res), *ch_opt, None);
+            }
+            res
+        };
         for i in (0..self.layers.len()).rev() {
             if i == self.overlay_layer_index {
                 if let Some(overlay) = &self.overlay_layer {
                     let pos = pos - overlay.get_offset();
                     let ch = overlay.get_char(pos);
                     if ch.attribute.foreground_color == TextAttribute::TRANSPARENT_COLOR || ch.attribute.background_color == TextAttribute::TRANSPARENT_COLOR {
-                        if transparent_char.is_none() {
-                            transparent_char = Some(ch);
-                        }
+                        transparent_chars.push((ch, None));
                     } else if ch.is_visible() {
-                        if let Some(transparent_char) = transparent_char {
-                            return self.make_solid_color(transparent_char, ch);
-                        }
-                        return ch;
+                        return fill(&transparent_chars, ch);
                     }
                 }
             }
@@ -992,14 +995,12 @@ impl TextPane for Buffer {
                         if found_char.attribute.foreground_color == TextAttribute::TRANSPARENT_COLOR
                             || found_char.attribute.background_color == TextAttribute::TRANSPARENT_COLOR
                         {
-                            if transparent_char.is_none() {
-                                transparent_char = Some(found_char);
-                            }
+                            // every such cell counts, its solid half covers what lies beneath. An override found above it
+                            // applies to the filled cell, the layers beneath are looked at without it
+                            transparent_chars.push((ch, ch_opt.take()));
+                            default_font_page = 0;
                         } else {
-                            if let Some(transparent_char) = transparent_char {
-                                return self.make_solid_color(transparent_char, found_char);
-                            }
-                            return found_char;
+                            return fill(&transparent_chars, found_char);
                         }
                     }
                 }
@@ -1023,17 +1024,14 @@ impl TextPane for Buffer {
             // an opaque layer of any mode hides what lies beneath it, also where it has no cell
             if !cur_layer.properties.has_alpha_channel {
                 let res = merge(AttributedChar::default().with_font_page(cur_layer.default_font_page), ch_opt, attr_opt);
-                if let Some(transparent_char) = transparent_char {
-                    return self.make_solid_color(transparent_char, res);
-                }
-                return res;
+                return fill(&transparent_chars, res);
             }
         }
 
         // nothing solid beneath: a blank cell with the overrides, as an opaque bottom layer shows it (a flattened copy has to look the same)
         let res = merge(AttributedChar::default().with_font_page(default_font_page), ch_opt, attr_opt);
-        if let Some(transparent_char) = transparent_char {
-            return self.make_solid_color(transparent_char, res);
+        if !transparent_chars.is_empty() {
+            return fill(&transparent_chars, res);
         }
 
         if self.is_terminal_buffer || ch_opt.is_some() || attr_opt.is_some() {
